@@ -67,6 +67,10 @@ where
             if current < stamp {
                 break;
             }
+            if file_stamp > current {
+                // Record of an abandoned future (its commit was rolled back): never applied.
+                continue;
+            }
             if file_stamp != current {
                 return Err(Error::StampMismatch {
                     file: file_stamp,
